@@ -175,13 +175,51 @@ def check_case(rec, case):
         o = call(getattr(na, name), *ops, *extra)
         if not o.ok:
             report_failure(rec, o, name, eps=eps, operands=args)
+    if mode != 'collide_default' and set(R1[0]).isdisjoint(R2[0]):
+        pipeline(rec, case, na, build, R1, R2, eps)
+
+
+def pipeline(rec, case, na, build, R1, R2, eps):
+    """the constructions applied one after the other to the SAME operand objects (the property quantifies over any number
+    of earlier calls): every result is compared with the reference construction on the operands AS THEY WERE BUILT, so an
+    earlier call that damaged an operand it was given (directly or through a result that shares containers with it) shows"""
+    o = call(lambda: (build(R1), build(R2)))
+    if not o.ok:
+        return
+    A, B = o.value
+    E_cat = fa.r_concat_nfa(R1, R2)
+    steps = [('nfa_concatenation', lambda env_: na.nfa_concatenation(A, B), E_cat, 'cat'),
+             ('nfa_repetition', lambda env_: na.nfa_repetition(env_['cat']), fa.r_star_nfa(E_cat), 'star_cat'),
+             ('nfa_union', lambda env_: na.nfa_union(A, B), fa.r_union_nfa(R1, R2), 'uni'),
+             ('nfa_repetition', lambda env_: na.nfa_repetition(B), fa.r_star_nfa(R2), 'star_B'),
+             ('nfa_repetition', lambda env_: na.nfa_repetition(env_['uni']), fa.r_star_nfa(fa.r_union_nfa(R1, R2)), 'star_uni'),
+             ('nfa_concatenation', lambda env_: na.nfa_concatenation(B, A), fa.r_concat_nfa(R2, R1), 'cat_BA'),
+             ('nfa_union', lambda env_: na.nfa_union(B, A), fa.r_union_nfa(R2, R1), 'uni_BA'),
+             ('nfa_repetition', lambda env_: na.nfa_repetition(A), fa.r_star_nfa(R1), 'star_A')]
+    env_ = {}
+    for (name, f, E, tag) in steps:
+        o = call(f, env_)
+        rec.counters['pipeline_steps'] += 1
+        if not o.ok:
+            report_failure(rec, o, name, what_prefix='after earlier calls on the same operand objects: ', eps=eps, N1=R1, N2=R2, step=tag)
+            return
+        env_[tag] = o.value
+        R = valid(rec, name, o.value)
+        if R is None:
+            return
+        S = tuple(sorted(set(R[1]) | set(E[1])))
+        w = fa.dfa_distinguish(fa.determinize(R)[0], fa.determinize(E)[0], S)
+        if w is not None:
+            rec.violation(name + ':language_differs_after_earlier_calls', 'after earlier calls on the same operand objects the result of %s is not the language operation on the operands as built' % name,
+                          word=w, step=tag, N1=R1, N2=R2)
+            return
 
 
 def disjoint(rng, R1, R2):
     """rename R2 so that the state sets are disjoint"""
     if set(R1[0]).isdisjoint(R2[0]):
         return R2
-    names = fag.random_names(rng, len(R2[0]), avoid=tuple(R1[0]))
+    names = fag.random_names(rng, len(R2[0]), avoid=tuple(R1[0]), exotic=True)
     return fag.rename(R2, dict(zip(R2[0], names)))
 
 
@@ -213,8 +251,8 @@ def gen_cases(rec, rng, tier):
             n1, n2 = rng.randint(1, 7), rng.randint(1, 6)
             names1, names2 = pool[:n1], pool[n1:n1 + n2]
         elif style == 'random_names':
-            names1 = fag.random_names(rng, n1)
-            names2 = fag.random_names(rng, n2, avoid=tuple(names1))
+            names1 = fag.random_names(rng, n1, exotic=True)
+            names2 = fag.random_names(rng, n2, avoid=tuple(names1), exotic=True)
         else:
             names1 = ['q%d' % i for i in range(n1)]
             names2 = ['p%d' % i for i in range(n2)]
